@@ -134,6 +134,7 @@ static spif_str_t mk_comp(void)
 }
 void harness(void)
 {
+    libast_debug_level = nondet_uint();          /* every run-time debug level */
     char *bystander = malloc(1);
     spif_url_t u = malloc(sizeof(spif_const_url_t));
     SPIF_CLASS_VAR(url) = &u_class;
